@@ -117,7 +117,8 @@ Definition u_model (m : model) (p : eprops) (chardim : list (uuid * option Q)) (
               match t with
               | TOP => URat (u_air r t)
               | BOTTOM =>
-                  let cdim := match lookup (s_id sp) chardim with Some (Some c) => c | _ => 0 end in
+                  (* B' is kept at 0.01 m at least (fix 5th of the slab formula: a slab of almost no area) *)
+                  let cdim := qmax (match lookup (s_id sp) chardim with Some (Some c) => c | _ => 0 end) (1 # 100) in
                   if qeqb cdim 0 then UUndef
                   else USlab (dt + (1 # 2) * z) cdim (mt_d_perim (m_meta m)) dt (mt_rn_perim (m_meta m) * (LAMBDA_GND - LAMBDA_INS))
               | SIDE =>
